@@ -132,7 +132,10 @@ func piecesGen(args []string) {
 		var sts []any
 		sts = append(sts, ast.Var("x", ast.Int(r.Intn(5))), ast.Var("y", ast.List(ast.Int(1))))
 		pool := func() N {
-			switch r.Intn(11) {
+			switch r.Intn(12) {
+			case 11:
+				// the list becomes a member of itself: values and final globals are compared down to a fixed depth
+				return ast.ExprStmt(ast.Call(ast.Attr(ast.Id("y"), "append"), ast.Id("y")))
 			case 9:
 				return ast.ExprStmt(ast.Call(ast.Id("inc2")))
 			case 10:
